@@ -3,14 +3,8 @@ package slices
 // C13 — Chunk, Windowed and Pairs partition a slice exactly.
 
 func VHChunk() {
-	N := vParam("N")
-	n := vRange("n", 0, N)
+	in, snap, _ := c13input()
 	size := c13size()
-	in := make([]int, n)
-	for i := range in {
-		in[i] = vInt("e")
-	}
-	snap := append([]int(nil), in...)
 
 	got := Chunk(in, size)
 
@@ -57,10 +51,12 @@ func c13size() int {
 func c13input() ([]int, []int, int) {
 	N := vParam("N")
 	n := vRange("n", 0, N)
-	in := make([]int, n)
-	for i := range in {
-		in[i] = vInt("e")
+	// spare capacity behind the slice holds values that are not part of the input
+	full := make([]int, n+vChoose("spare", 3))
+	for i := range full {
+		full[i] = vInt("e")
 	}
+	in := full[:n]
 	snap := append([]int(nil), in...)
 	return in, snap, N
 }
